@@ -359,6 +359,12 @@ impl Run {
             run.tok_fails = f["tokFails"].as_bool().unwrap();
             run.channels = f["channels"].as_array().unwrap().iter().map(|c| c.as_str().unwrap().to_string()).collect();
             run.w.set_clock(n(&f["now"], "h"), n(&f["now"], "t"));
+            // a deployed contract gets new code through `migrate`: the state is compared after it has run
+            let (creator, code) = (run.w.addr("creator"), run.code_id);
+            let r = call(&mut run.w, |w| w.app.migrate_contract(creator, ics.clone(), &MigrateMsg { default_gas_limit: None }, code));
+            if !r.ok {
+                run.sc.anomalies.borrow_mut().push(format!("the upgrade of a deployment of the release was refused: {}", r.err));
+            }
         }
         let mut cfgv = cfg.clone();
         if let Some((_, f)) = &fx {
